@@ -1,10 +1,12 @@
 #!/bin/sh
-# tools/seedtest.sh <seed-id> <Cnn> [more Cnn...]: apply seeded/<seed-id>/patch.diff to /repo, run the checks, undo straight afterwards
+# tools/seedtest.sh <seed-id> <Cnn> [more Cnn...]: apply seeded/<seed-id>/patch.diff to the repository, run the checks, undo straight afterwards
+# REPO / VERIF may point at scratch copies (tools/seed_sweep.sh does that); the default is the real /repo and /verif
+REPO=${REPO:-/repo}; VERIF=${VERIF:-/verif}
 ID=$1; shift
-cd /repo && git apply /verif/seeded/$ID/patch.diff || { echo "patch does not apply to /repo"; exit 2; }
-cd /verif
+cd $REPO && git apply /verif/seeded/$ID/patch.diff || { echo "patch does not apply to $REPO"; exit 2; }
+cd $VERIF
 rm -rf .tmp/ev.save; mkdir -p .tmp/ev.save; cp evidence/*.json .tmp/ev.save/ 2>/dev/null
-for P in "$@"; do ./check $P 2>&1 | grep -E "VIOLATION|UNDECIDED|CRASH|UNSOUND|tier=" | head -8; echo "  -> $ID vs $P exit=$?"; done
-git -C /repo checkout -- .
+for P in "$@"; do PYVC_REPO=$REPO ./check $P 2>&1 | grep -E "VIOLATION|UNDECIDED|CRASH|UNSOUND|tier=" | head -8; echo "  -> $ID vs $P"; done
+git -C $REPO checkout -- .
 cp .tmp/ev.save/*.json evidence/ 2>/dev/null
-rm -f /verif/replays/*.json
+rm -f $VERIF/replays/*.json
